@@ -404,7 +404,9 @@ Theorem exec_deterministic : forall n en st s r1 r2, exec n en st s = r1 -> exec
 Proof. intros; subst; reflexivity. Qed.
 
 (* ------------------------------------------------------------------------------------------------------------- *)
-(* F. allocation-history independence of the store primitives (partial: alloc_list, emit; not the interpreter)      *)
+(* F. allocation-history independence of the store primitives with FUNCTIONAL renamings (alloc_list, emit).
+   The full result for the interpreter (eval / call / exec / whole programs, relational renamings that are extended at
+   each allocation) is in Determ/Renaming.v, RenamingOps.v, RenamingPrims.v and RenamingSem.v (rel_all, run_from_rel). *)
 Lemma nth_error_lt_Some {A} (l : list A) a : a < List.length l -> exists x, nth_error l a = Some x.
 Proof.
   intros L. destruct (nth_error l a) eqn:E; [eauto|]. apply nth_error_None in E. lia.
